@@ -53,6 +53,12 @@ def replay_scale(case):
         got = t_scale(xin, center=case["center"], scale=case["scale"], ddof=case["ddof"], _state=st)
         chk("fit values", close(got, exp_fit), list(got), exp_fit)
         chk("the fitted-on vector is not written to", xin.tolist() == x, xin.tolist(), x)
+        # the same numbers held in a narrow integer dtype (homogeneity, a theorem of MC_PolyScale, gives the expected values of the multiple)
+        for dt, c in (("int8", 40), ("int32", 30000), ("int64", 4000000000)):
+            xi = numpy.array([c * int(v) for v in case["x"]], dtype=dt)
+            gi = numpy.asarray(t_scale(xi, center=case["center"], scale=case["scale"], ddof=case["ddof"], _state={}), dtype=float)
+            want = numpy.array(exp_fit) * (1 if case["scale"] else c)
+            chk(f"fit values on {dt} data", bool(numpy.allclose(gi, want, rtol=1e-9, atol=1e-9)), gi.tolist(), want.tolist())
         if case["center"]:
             chk("recorded center", close(st["center"], case["st_center"][0] / case["st_center"][1]), st.get("center"))
             chk("zero mean", abs(float(numpy.mean(got))) < 1e-9, float(numpy.mean(got)))
@@ -121,6 +127,13 @@ def replay_poly(case):
         raw = numpy.stack([numpy.power(x, j) for j in range(0, k + 1)], axis=1)
         chk("same span as the raw powers", numpy.linalg.matrix_rank(numpy.hstack([raw, got])) == k + 1)
         chk("raw=True gives the raw powers", close(numpy.asarray(poly(numpy.array(x), degree=k, raw=True), dtype=float), raw[:, 1:]))
+        for dt, c in (("int8", 40), ("int32", 30000)):
+            xi = numpy.array([c * int(v) for v in case["x"]], dtype=dt)
+            rawi = numpy.stack([numpy.power(xi.astype(float), j) for j in range(1, k + 1)], axis=1)
+            chk(f"raw=True gives the raw powers on {dt} data", bool(numpy.allclose(numpy.asarray(poly(xi, degree=k, raw=True), dtype=float), rawi, rtol=1e-12)),
+                numpy.asarray(poly(xi, degree=k, raw=True), dtype=float).tolist(), rawi.tolist())
+            gi = numpy.asarray(poly(xi, degree=k, _state={}), dtype=float)
+            chk(f"fit values on {dt} data", bool(numpy.allclose(gi, numpy.array(exp_fit), rtol=1e-9, atol=1e-9)), gi.tolist(), exp_fit)
         for f in case["follow"]:
             y = [float(v) for v in f["y"]]
             exp = [[val(p) for p in row] for row in f["v"]]
